@@ -284,3 +284,37 @@ impl crate::save::upload::Table for Layer {
         unimplemented!()
     }
 }
+
+/// verification hooks: build a layer from parts and run single steps
+#[cfg(robopoker_verif)]
+impl Layer {
+    pub fn verif_new(street: Street, metric: Metric, points: Vec<Histogram>, kmeans: Vec<Histogram>) -> Self {
+        Self {
+            street,
+            metric,
+            points,
+            kmeans,
+        }
+    }
+    #[cfg(feature = "native")]
+    pub fn verif_init(&self) -> Vec<Histogram> {
+        self.init()
+    }
+    #[cfg(feature = "native")]
+    pub fn verif_next(&self) -> Vec<Histogram> {
+        self.next()
+    }
+    #[cfg(feature = "native")]
+    pub fn verif_lookup(&self) -> Lookup {
+        self.lookup()
+    }
+    pub fn verif_neighborhood(&self, x: &Histogram) -> (usize, f32) {
+        self.neighborhood(x)
+    }
+    pub fn verif_metric(&self) -> Metric {
+        self.metric()
+    }
+    pub fn verif_emd(&self, x: &Histogram, y: &Histogram) -> Energy {
+        self.emd(x, y)
+    }
+}
